@@ -153,7 +153,11 @@ def parse_obs(text):
         parts = line.split(" ", 2)
         if len(parts) < 2:
             continue
-        d[(parts[0], parts[1])] = parts[2] if len(parts) > 2 else ""
+        kind = parts[1]
+        # flags passed to an operation are not part of the observation's name
+        if kind.endswith(":noagain"):
+            kind = kind[:-len(":noagain")]
+        d[(parts[0], kind)] = parts[2] if len(parts) > 2 else ""
     return d
 
 
